@@ -10,7 +10,10 @@
 (* subscribed, both sides hold references to their own objects.             *)
 (* Phase "run": operations of a client and of the service implementation:   *)
 (*    Call(i, args, ret)   the implementation must observe exactly args,    *)
-(*                         the caller must receive exactly ret              *)
+(*                         the caller must receive exactly ret; the method  *)
+(*                         that runs is the one the (name, parameter        *)
+(*                         signature) of i resolves to: among overloads,    *)
+(*                         i itself (RightOverloadRuns)                     *)
 (*    Subscribe(i) / Unsubscribe(i)   on a signal or a property             *)
 (*    Emit(i, payload)     reaches the subscriber iff subscribed, equal and *)
 (*                         in order                                         *)
@@ -28,6 +31,10 @@
 (* Values: Val(T, k), k = 1..3, three values per type (an extreme, another  *)
 (* one, the zero / empty one), built structurally; numbers outside TLC's    *)
 (* range are names (the harness owns the table, shared with Convert).       *)
+(* A dynamic value that holds a composite (Idl!Dyn) is the record           *)
+(* [sig, t, v]: the signature and the type tree of what it holds and the    *)
+(* k-th value of that type; the harness encodes v by t with an encoder of   *)
+(* its own and wraps it (value.Opaque / the value constructors).            *)
 (*                                                                          *)
 (* Objects.  A value of an interface type is a reference.  Exchanging it is *)
 (* part of the machine: each side holds references under handles (cheld:    *)
@@ -47,7 +54,9 @@ EXTENDS Idl
 
 CONSTANTS MaxOps,       \* operations per behaviour
           MaxPick,      \* choices of references per operation
-          Layouts       \* layouts of the IDL text explored ("aux-first", "aux-last")
+          Layouts,      \* layouts of the IDL text explored ("aux-first", "aux-last")
+          Devs          \* named deviations switched on ({} in every property-checking configuration):
+                        \*   "by-name-only"  the proxy resolves the action id of a call by the method name alone
 
 (***************************************************************************)
 (* Values                                                                   *)
@@ -69,6 +78,7 @@ RECURSIVE Slots(_, _)
 Slots(T, k) ==
   CASE T.k = "obj"  -> <<T.name>>
     [] T.k = "sc"   -> IF T.c = "o" THEN <<"obj">> ELSE <<>>
+    [] T.k = "dyn"  -> <<>>                                   \* what a dynamic value holds has no references
     [] T.k = "list" -> IF k = 1 THEN Slots(T.e, 1) \o Slots(T.e, 2)
                        ELSE IF k = 2 THEN Slots(T.e, 2) ELSE <<>>
     [] T.k = "map"  -> IF k = 1 THEN Slots(T.val, 1) \o Slots(T.val, 2)       \* keys are never references
@@ -82,6 +92,7 @@ RECURSIVE ValS(_, _, _)
 ValS(T, k, b) ==
   CASE IsRef(T)                -> [slot |-> b + 1]
     [] T.k = "sc" /\ T.c = "m" -> DynVal[k]
+    [] T.k = "dyn"    -> [sig |-> Str(Sig(T.ts[k])), t |-> T.ts[k], v |-> ValS(T.ts[k], k, 0)]
     [] T.k = "sc"              -> ScVal[T.c][k]
     [] T.k = "list"   -> IF k = 1 THEN <<ValS(T.e, 1, b), ValS(T.e, 2, b + Len(Slots(T.e, 1)))>>
                          ELSE IF k = 2 THEN <<ValS(T.e, 2, b)>> ELSE <<>>
@@ -98,6 +109,7 @@ RECURSIVE Carriable(_)
 Carriable(T) ==
   CASE T.k = "obj"  -> TRUE
     [] T.k = "sc"   -> T.c \in DOMAIN ScVal \cup {"m", "o"}
+    [] T.k = "dyn"  -> DOMAIN T.ts = 1..3 /\ \A j \in DOMAIN T.ts : Carriable(T.ts[j]) /\ Slots(T.ts[j], j) = <<>> /\ T.ts[j].k # "dyn"
     [] T.k = "list" -> Carriable(T.e)
     [] T.k = "map"  -> Carriable(T.key) /\ Carriable(T.val) /\ T.key.k = "sc" /\ T.key.c \notin {"m", "o"}
     [] OTHER        -> \A j \in DOMAIN T.ms : Carriable(T.ms[j])
@@ -109,7 +121,7 @@ ArgSlots(a, k) == Flat(ArgSlotSeqs(a, k))
 Args(a, k) == [j \in DOMAIN a.ps |-> ValS(a.ps[j].t, ArgK(k, j), Before(ArgSlotSeqs(a, k), j))]
 
 \* the value indices that give different values: a reference has one value per choice j
-ArgKs(a) == IF a.ps # <<>> /\ \A j \in DOMAIN a.ps : IsRef(a.ps[j].t) THEN {1} ELSE Ks
+ArgKs(a) == IF a.ps = <<>> \/ \A j \in DOMAIN a.ps : IsRef(a.ps[j].t) THEN {1} ELSE Ks
 RetKs(a) == IF IsRef(a.ret) THEN {1} ELSE Ks
 
 (***************************************************************************)
@@ -133,6 +145,7 @@ RECURSIVE TypeItfs(_)
 TypeItfs(T) ==
   CASE T.k = "obj"  -> {T.name}
     [] T.k = "sc"   -> IF T.c = "o" THEN {SlotItf("obj")} ELSE {}
+    [] T.k = "dyn"  -> {}
     [] T.k = "list" -> TypeItfs(T.e)
     [] T.k = "map"  -> TypeItfs(T.key) \cup TypeItfs(T.val)
     [] OTHER        -> UNION {TypeItfs(T.ms[j]) : j \in DOMAIN T.ms}
@@ -248,6 +261,48 @@ S2C(picks, slots, sh, ch, tbl, nh) ==
 Unsent(picks, slots, sh, tbl) ==
   [s \in DOMAIN slots |-> Leaf(picks[s], 0, Resolve(tbl, sh[picks[s]]), slots[s])]
 
+(***************************************************************************)
+(* Overloads.  Several actions of an interface may carry one name.  The     *)
+(* generators give every action a Go name of its own                        *)
+(* (MetaObject.ForEachMethodAndSignal + registerName): they walk the        *)
+(* methods, then the signals, then the properties, each in uid order, and   *)
+(* name an action Title(name) when no earlier action has that name, else    *)
+(* Title(name)_n with the smallest n >= 0 that is free.  GoName(i) is that  *)
+(* name before the first letter is upper-cased (strings.Title: the harness  *)
+(* does it; Canon maps the pool names that differ by that letter only).     *)
+(* The implementor interface, the signal helper and the proxy use it:       *)
+(* <GoName>, Signal<GoName>, Subscribe<GoName>, Get/Set/Subscribe<GoName>,  *)
+(* On<GoName>Change, Update<GoName>.                                        *)
+(*                                                                          *)
+(* A call through the proxy method GoName(i) sends the name and the         *)
+(* parameter signature of action i (bus/proxy.go Call2 ->                   *)
+(* MetaObject.MethodID(name, signature)); the object executes the method    *)
+(* whose uid that resolves to (the stub's Receive switches on the uid):     *)
+(* Resolves(i).  In a well-formed interface the parameter signatures of the *)
+(* methods of one name differ (OverloadsDistinct), so Resolves(i) = {i}.    *)
+(***************************************************************************)
+Canon(n) == IF n = "Ping" THEN "ping" ELSE n
+KindRank(kd) == CASE kd = "method" -> 1 [] kd = "signal" -> 2 [] OTHER -> 3
+WalkBefore(i, j) == \/ KindRank(ThePool[i].kind) < KindRank(ThePool[j].kind)
+                    \/ ThePool[i].kind = ThePool[j].kind /\ ThePool[i].id < ThePool[j].id
+RECURSIVE WalkSeq(_)
+WalkSeq(S) == IF S = {} THEN <<>>
+              ELSE LET m == CHOOSE x \in S : \A y \in S \ {x} : WalkBefore(x, y) IN <<m>> \o WalkSeq(S \ {m})
+Suffixed(base, n) == base \o "_" \o ToString(n)
+FreshName(base, used) ==
+  IF base \notin used THEN base
+  ELSE Suffixed(base, CHOOSE n \in 0..99 : Suffixed(base, n) \notin used /\ \A m \in 0..(n - 1) : Suffixed(base, m) \in used)
+RECURSIVE NameWalk(_, _)
+NameWalk(seq, used) == IF seq = <<>> THEN {}
+                       ELSE LET n == FreshName(Canon(ThePool[Head(seq)].name), used)
+                            IN {<<Head(seq), n>>} \cup NameWalk(Tail(seq), used \cup {n})
+GoNames == NameWalk(WalkSeq(chosen), {})
+GoName(i) == (CHOOSE p \in GoNames : p[1] = i)[2]
+
+ParamSig(a) == Str(Sig(Erase(Tuple(ParamTypes(a)))))
+Resolves(i) == {x \in chosen : /\ ThePool[x].kind = "method" /\ ThePool[x].name = ThePool[i].name
+                               /\ ("by-name-only" \in Devs \/ ParamSig(ThePool[x]) = ParamSig(ThePool[i]))}
+
 RInit == /\ IInit /\ phase = "build" /\ layout = "aux-first" /\ store = <<>> /\ subs = {} /\ hist = <<>>
          /\ cheld = <<>> /\ sheld = <<>> /\ table = <<>> /\ nexth = FirstFresh /\ nextid = FirstFwd
          /\ execs = [o \in Objs |-> 0]
@@ -255,6 +310,10 @@ RInit == /\ IInit /\ phase = "build" /\ layout = "aux-first" /\ store = <<>> /\ 
 Build(i) == /\ phase = "build"
             /\ Add(i)
             /\ UNCHANGED <<phase, layout, store, subs, hist, ovars, execs>>
+\* >= 2 members of an overload group at once
+BuildGroup(S) == /\ phase = "build"
+                 /\ AddGroup(S)
+                 /\ UNCHANGED <<phase, layout, store, subs, hist, ovars, execs>>
 
 \* the references both sides hold at the start
 Table0 == [o \in {x \in Objs : ObjHost[x] = "svc" /\ (x = Root \/ ObjItf[x] \in PkgItfs)} |-> [obj |-> o, fwd |-> 0]]
@@ -278,29 +337,32 @@ Op(rec) == /\ phase = "run" /\ Len(hist) < MaxOps
 \* side / h / g (use, via), objs / robjs (the references inside the arguments / the result),
 \* exec (the object that executes a call through a reference), dev (named deviation of the
 \* pinned code that the operation runs into, "": none)
+\* ran (calls: the pool index of the method the object executes, else 0)
 Rec(op, i, k, r, deliver, j, x) ==
   [op |-> op, id |-> IF i = 0 THEN 0 ELSE ThePool[i].id, idx |-> i, k |-> k, r |-> r, deliver |-> deliver,
    j |-> j, side |-> x.side, h |-> x.h, g |-> x.g, objs |-> x.objs, robjs |-> x.robjs,
-   exec |-> x.exec, dev |-> x.dev]
-NoX == [side |-> "", h |-> 0, g |-> 0, objs |-> <<>>, robjs |-> <<>>, exec |-> 0, dev |-> ""]
+   exec |-> x.exec, dev |-> x.dev, ran |-> x.ran]
+NoX == [side |-> "", h |-> 0, g |-> 0, objs |-> <<>>, robjs |-> <<>>, exec |-> 0, dev |-> "", ran |-> 0]
 
 \* the stub asks the object it returns for its description while it still executes the call:
 \* an object that returns itself waits for itself (InterfaceType.Marshal in the stub method)
 ReturnDev(rleaves) == IF \E s \in DOMAIN rleaves : rleaves[s].obj = Root THEN "returns-itself" ELSE ""
 
-Call(i, k, r, j) ==
+Call(i, k, r, j, x) ==
   LET a  == ThePool[i]
       as == ArgSlots(a, k)
       rs == IF r = 0 THEN <<>> ELSE Slots(a.ret, r)
   IN /\ Kind(i) = "method"
      /\ (a.ret = Void) <=> (r = 0)
      /\ k \in ArgKs(a) /\ (r = 0 \/ r \in RetKs(a))
+     /\ (a.grp # "" /\ a.ps # <<>>) => r \in {0, k}      \* overloads: the k-th arguments with the k-th result
      /\ (j = 0) <=> (as = <<>> /\ rs = <<>>)
      /\ HasCands(cheld, table, as)
+     /\ x \in Resolves(i)                  \* the method the object executes
      /\ LET x1 == C2S(Picks(cheld, table, as, j), as, cheld, sheld, table, nexth, nextid)
             x2 == S2C(Picks(x1.sh, x1.tbl, rs, j), rs, x1.sh, cheld, x1.tbl, x1.nh)
         IN /\ Op(Rec("call", i, k, r, FALSE, j,
-                     [NoX EXCEPT !.objs = x1.leaves, !.robjs = x2.leaves, !.dev = ReturnDev(x2.leaves)]))
+                     [NoX EXCEPT !.objs = x1.leaves, !.robjs = x2.leaves, !.dev = ReturnDev(x2.leaves), !.ran = x]))
            /\ sheld' = x1.sh /\ table' = x1.tbl /\ nextid' = x1.ni
            /\ cheld' = x2.ch /\ nexth' = x2.nh
      /\ UNCHANGED <<store, subs, execs>>
@@ -370,10 +432,11 @@ Via(h, g) ==
   /\ UNCHANGED <<store, subs>>
 
 RNext == \/ \E i \in DOMAIN ThePool : Build(i)
+         \/ \E S \in GroupSets : BuildGroup(S)
          \/ \E lay \in Layouts : Freeze(lay)
          \/ /\ phase = "run" /\ Len(hist) < MaxOps
             /\ \/ \E i \in chosen :
-                    \/ \E k \in Ks, r \in 0..3, j \in 0..MaxPick : Call(i, k, r, j)
+                    \/ \E k \in Ks, r \in 0..3, j \in 0..MaxPick, x \in chosen : Call(i, k, r, j, x)
                     \/ Subscribe(i) \/ Unsubscribe(i)
                     \/ \E k \in Ks, j \in 0..MaxPick : Emit(i, k, j) \/ Set(i, k, j)
                     \/ Get(i)
@@ -442,11 +505,37 @@ ForwardersSound ==
     IF table[x].fwd = 0 THEN table[x].obj \in Objs /\ ObjHost[table[x].obj] = "svc" /\ x = table[x].obj
     ELSE /\ table[x].obj = 0 /\ x >= FirstFwd /\ x < nextid
          /\ IsClientId(table[x].fwd) /\ ObjHost[table[x].fwd - ClientBase] = "cli"
+\* a call through the proxy method of an overload is executed by that overload: the implementation
+\* method that runs is the one whose Go name the proxy method carries (Go names are unique: GoNamesUnique)
+RightOverloadRuns == \A n \in DOMAIN hist : hist[n].op = "call" => hist[n].ran = hist[n].idx
+\* the methods of one name are told apart by their parameter signatures
+OverloadsDistinct ==
+  \A i, j \in chosen : (i # j /\ ThePool[i].kind = "method" /\ ThePool[j].kind = "method"
+                         /\ ThePool[i].name = ThePool[j].name) => ParamSig(ThePool[i]) # ParamSig(ThePool[j])
+\* every action has a Go name of its own; an action keeps its bare name unless an action that the
+\* generators visit earlier carries that Go name already
+GoNameTheorems ==
+  LET gn == GoNames
+      nameOf(i) == (CHOOSE p \in gn : p[1] = i)[2]
+  IN /\ \A p, q \in gn : p[2] = q[2] => p[1] = q[1]
+     /\ {p[1] : p \in gn} = chosen
+     /\ \A i \in chosen : \/ nameOf(i) = Canon(ThePool[i].name)
+                          \/ \E j \in chosen : WalkBefore(j, i) /\ nameOf(j) = Canon(ThePool[i].name)
 \* handles are never reused, on either side
 HandlesFresh == \A h \in DOMAIN cheld \cup DOMAIN sheld : h < nexth
 \* Idl's theorems about the interface: it changes in the build phase only
+\* (what holds per action - SigsInGrammar, TupleShaped, OnlyCarriable - is decided once for the whole pool)
+PoolTheorems ==
+  \A i \in DOMAIN ThePool :
+    LET a == ThePool[i]
+    IN /\ RoundTrip(Erase(PayloadType(a))) /\ RoundTrip(Erase(a.ret))
+       /\ ~a.bare => PayloadType(a).k = "tuple"
+       /\ (\A j \in DOMAIN a.ps : Carriable(a.ps[j].t)) /\ (a.ret = Void \/ Carriable(a.ret))
+       /\ a.name # "ident"                                \* the method IdlRpc adds to exchanged interfaces
+ASSUME PoolTheorems
 ItfTheorems == phase = "build" =>
-                 (UniqueIds /\ SigsInGrammar /\ TupleShaped /\ Consistent /\ AtMostOneSpecial /\ OnlyCarriable)
+                 (UniqueIds /\ Consistent /\ AtMostOneSpecial
+                  /\ GroupsTogether /\ UnitsBounded /\ OverloadsDistinct /\ GoNameTheorems)
 RTypeOK == /\ phase \in {"build", "run"}
            /\ layout \in {"aux-first", "aux-last"}
            /\ Len(hist) <= MaxOps
